@@ -18,7 +18,7 @@ import (
 // also makes the Finished values disagree: the endpoint must never complete.
 
 var scriptFaults = []string{"replace-type", "duplicate", "omit", "truncate-body", "truncate-body+close", "set-byte", "handshake-length", "insert-record", "close-before", "close-inside", "stall", "fragment(legal)", "coalesce(legal)", "replace-body", "record-version", "oversize-record", "warning-alerts", "empty-record", "length-field", "plaintext-finished",
-	"hello-version", "hello-suites", "hello-compression", "server-bad-selection", "server-cert-list", "deadline", "crafted-key-exchange", "malformed-extensions"}
+	"hello-version", "hello-suites", "hello-compression", "server-bad-selection", "server-cert-list", "deadline", "crafted-key-exchange", "malformed-extensions", "cert-message-omitted"}
 var scriptReach = []string{"honest-client-vs-gm-server", "honest-client-vs-auto-server", "honest-server-vs-gm-client", "must-complete-completed", "must-fail-failed", "unspecified-ok", "eut-client", "eut-server-gm", "eut-server-auto", "eut-server-tls", "alert-from-eut", "timeout-at-deadline", "legit-wait", "client-auth-path", "dev-in-client-flight", "dev-in-server-flight", "dev-after-ccs"}
 
 func init() {
@@ -45,13 +45,14 @@ type scriptRun struct {
 	Suites   []uint16
 	Compress []byte
 	// scripted server deviations
-	SrvVers     uint16
-	SrvChoose   uint16
-	SrvCompress uint8
-	SrvCertList [][]byte
-	Deadline    int64
-	ExtraExt    bool
-	ExtraExts   []reftls.Ext
+	SrvVers       uint16
+	SrvChoose     uint16
+	SrvCompress   uint8
+	SrvCertList   [][]byte
+	Deadline      int64
+	ExtraExt      bool
+	ExtraExts     []reftls.Ext
+	IgnoreCertReq bool
 }
 
 // number of outgoing units of the honest peer (for drawing At)
@@ -240,7 +241,17 @@ func runScriptedPeer(c *simkit.Choice, r *simkit.Rec) {
 		}
 	case 2:
 		if sr.EUTServer {
-			switch c.Choose(6, simkit.LFault) {
+			nsub := 6
+			if sr.ClientAuth {
+				nsub = 7
+			}
+			switch c.Choose(nsub, simkit.LFault) {
+			case 6:
+				// the client acts as if no certificate had been requested: no Certificate
+				// message at all (not even an empty one), consistent transcript
+				sr.IgnoreCertReq = true
+				sr.Expect = expFail
+				sr.Why = "requested client Certificate message omitted altogether (consistent transcript)"
 			case 5:
 				// well-known extensions with malformed or unusual bodies
 				types := []uint16{0, 10, 11, 13, 16, 35, 5, 18, 0xff01, 23, 15}
@@ -509,6 +520,7 @@ func runScriptedPeer(c *simkit.Choice, r *simkit.Rec) {
 				cfg.ExtraExts = []reftls.Ext{{Type: 0xfabc, Data: []byte{1, 2, 3, 4}}}
 			}
 			cfg.ExtraExts = append(cfg.ExtraExts, sr.ExtraExts...)
+			cfg.IgnoreCertRequest = sr.IgnoreCertReq
 			if sr.ClientAuth {
 				cfg.Cert = &reftls.Identity{Chain: [][]byte{pki.DER("cli")}, Key: pki.D("cli")}
 			}
@@ -587,6 +599,9 @@ func runScriptedPeer(c *simkit.Choice, r *simkit.Rec) {
 	}
 	if malformedExt {
 		r.Fault(idx(scriptFaults, "malformed-extensions"))
+	}
+	if sr.IgnoreCertReq {
+		r.Fault(idx(scriptFaults, "cert-message-omitted"))
 	}
 	var sent []string
 	if pc != nil {
